@@ -29,14 +29,14 @@ Definition NewACL_ok (s : str) : bool :=
   end.
 
 (* template.FromConf *)
-Definition smapEmpty (m : smap) : bool := forallb (fun kv => is_nil (fst kv) || is_nil (snd kv)) m.
-Definition rmapEmpty (m : ormap) : bool := forallb (fun kv => is_nil (snd kv)) (omap_list m).
+Definition smapEmpty (m : smap) : bool := forallb (fun kv => nilb (fst kv) || nilb (snd kv)) m.
+Definition rmapEmpty (m : ormap) : bool := forallb (fun kv => nilb (snd kv)) (omap_list m).
 Definition templateEmpty (t : template) : bool :=
   N.eqb (t_maxapps t) 0 && smapEmpty (t_props t) && rmapEmpty (t_gua t) && rmapEmpty (t_max t).
 Definition templateFromConf_ok (t : template) : bool :=
   templateEmpty t || (is_some (parseRes (t_max t)) && is_some (parseRes (t_gua t))).
 
-Definition isLeafConf (q : queue) : bool := negb (q_parent q) && is_nil (q_queues q).
+Definition isLeafConf (q : queue) : bool := negb (q_parent q) && nilb (q_queues q).
 
 (* applyConf: ACLs, template for non leaf queues, resources for all but the queue called root *)
 Definition applyConf (q : queue) : option lerr :=
@@ -80,9 +80,9 @@ Fixpoint newRule_ok (r : prule) : bool :=
       let parent_ok := match parent with Some p => newRule_ok p | None => true end in
       if str_eqb n s_fixed then
         let queue := lower value in
-        negb (is_nil queue) && forallb queueNameOK (splitOn c_dot queue) &&
+        negb (nilb queue) && forallb queueNameOK (splitOn c_dot queue) &&
         negb (hasPrefix queue s_root && is_some parent) && parent_ok
-      else if str_eqb n s_tag then negb (is_nil (lower value)) && parent_ok
+      else if str_eqb n s_tag then negb (nilb (lower value)) && parent_ok
       else if str_eqb n s_user || str_eqb n s_provided || str_eqb n s_test then parent_ok
       else false                                    (* recovery and unknown names *)
   end.
@@ -134,7 +134,7 @@ Definition LoadNew (c : sconfig) : lres := loadLoop [] c true.
    a running partition that is not in the new configuration is stopped from inside the locked section and its
    manager calls back into ClusterContext.removePartition, which takes the same lock *)
 Definition LoadReload (base : list str) (c : sconfig) : lres :=
-  if is_nil base then LErr LENoPartitions else       (* "RM has no active partitions" *)
+  if nilb base then LErr LENoPartitions else       (* "RM has no active partitions" *)
   match loadLoop base c true with
   | LOk a => if forallb (fun b => mem_str b (map p_name c)) base then LOk a else LHang
   | r => r
